@@ -103,16 +103,16 @@ func (t *ProcessorTask) Do(ctx context.Context, b *Batch) error {
 	recsIn := b.ActiveRecords()
 	recsOut := t.processor.Process(ctx, recsIn)
 
-	if len(recsOut) == 0 {
-		// No result at all for a non-empty input cannot make progress: the
-		// same records would be handed to the processor again after a
-		// restart, with the same outcome. Deterministic plugin misbehaviour,
-		// so fatal (the stream engine treats a missing result the same way,
-		// and a processor that keeps returning a too short result ends in the
-		// fatal CodeRetryNotConverging) - a plain error would send the
-		// pipeline through recovery restarts forever.
-		return cerrors.FatalError(cerrors.Errorf("processor didn't return any records"))
+	if len(recsOut) == 0 && len(recsIn) == 0 {
+		return cerrors.Errorf("processor didn't return any records")
 	}
+	// No result at all for a non-empty input is the extreme case of a short
+	// result: every record is marked to be retried below, like the missing
+	// tail of any other short result. A processor that keeps answering with
+	// nothing makes no progress and ends in the worker's fatal
+	// CodeRetryNotConverging; one that answers on the next attempt carries on.
+	// (This used to be a plain error that sent the pipeline through a recovery
+	// restart each time - forever, for a processor that never answers.)
 	t.metrics.Observe(len(recsOut), start)
 
 	if len(recsOut) > len(recsIn) {
